@@ -146,11 +146,18 @@ def lean_trace(acts):
 
 def translate(ctx):
     reload_trace, precheck_trace = trace_lock_programs()
+    from collections import deque
+
+    from sdc11073.mdib.consumermdib import ConsumerMdib
+    shared = sorted(f'{c.__name__}.{k}' for c in ConsumerMdib.__mro__[:-1] for k, v in vars(c).items()
+                    if isinstance(v, (list, dict, set, deque, bytearray)) and not k.startswith('__'))
     src = ('import SdcModel.Consumer\n/-! generated by harness/props/c06.py (translate): dynamic traces of ConsumerMdib.reload_all and\n'
            'ConsumerMdib._pre_check_report_ok (state `initializing`): buffer lock, reads / writes of `_state`, buffer appends -/\n'
            'namespace Sdc.Generated\nopen Sdc.Consumer\n'
            f'def reloadAllTrace : List LockAct := {lean_trace(reload_trace)}\n'
            f'def preCheckTrace : List LockAct := {lean_trace(precheck_trace)}\n'
+           '/-- mutable containers that are attributes of the ConsumerMdib class (or a base class) instead of the instance -/\n'
+           f'def consumerClassLevelMutableAttrs : List String := [' + ', '.join(f'"{x}"' for x in shared) + ']\n'
            'end Sdc.Generated\n')
     core.write_if_changed(core.GENERATED + '/ConsumerLocks.lean', src)
 
@@ -1173,7 +1180,7 @@ def gen_schedule(hist: History, rng, count=None):
         if rng.random() < 0.2 and nxt < n and hist.reports[nxt].vg[1:] == cap.snap.vg[1:]:
             # forced interleaving of a notification thread with reload_all at the buffer lock of the pre-check
             return ('race', cap_idx, ctx_idx, during, nxt, rng.choice(['before-lock', 'in-lock', 'after-release']))
-        return ('reload', cap_idx, ctx_idx, during)
+        return ('reload+other' if during and rng.random() < 0.2 else 'reload', cap_idx, ctx_idx, during)
 
     first = inflight(c0)
     ev.append(first)
@@ -1548,7 +1555,7 @@ class Runner:
         return {h: tuple((str(x.value), round(x.determination_time * 1000)) for x in list(b.rt_data))
                 for h, b in self.mdib.rt_buffers.items()}
 
-    def reload(self, cap_idx, ctx_idx, during, race=None):
+    def reload(self, cap_idx, ctx_idx, during, race=None, other_load=False):
         """race = (wire index, 'before-lock' | 'in-lock'): a notification thread delivers that report while GetMdib is in
         flight and is stopped at the buffer lock of _pre_check_report_ok (forced interleaving with reload_all)"""
         hist = self.hist
@@ -1589,11 +1596,36 @@ class Runner:
                 while thr.is_alive() and not runner.mdib_lock_proxy.waiting.is_set() and time.time() - t0 < lock.TIMEOUT:
                     time.sleep(0.001)
 
+        nested = []
+
         def fake_get_mdib(*_a, **_k):
+            if nested:      # the GetMdib of the other consumer mdib (see below): just the answer
+                md = reader.read_received_message(cap.raw_mdib)
+                return GetRequestResult(md, md.msg_reader.read_get_mdib_response(md))
             runner.observe('begin')   # state initializing, tables cleared
             runner._oracle_tables('during reload')
             for i in during:
                 runner.deliver(i, inflight=True)
+            if other_load:
+                # overlapping loads: a second ConsumerMdib of the same SdcConsumer (no notification ever reaches it) performs
+                # a complete reload_all while this one waits for its GetMdib answer. The state of a consumer mdib is
+                # per instance: the other load sees an empty buffer, ends exactly at the answer and leaves ours alone.
+                from sdc11073.mdib import ConsumerMdib
+                nested.append(True)
+                try:
+                    other = ConsumerMdib(runner.w.sdc)
+                    n_before = len(runner.mdib._buffered_notifications)  # noqa: SLF001
+                    other.reload_all()
+                    where2 = f'second ConsumerMdib loaded (capture {cap_idx}) while the first one waits for GetMdib with {n_before} buffered notifications'
+                    if other.mdib_version != cap.snap.vg[0] or len(other._buffered_notifications):  # noqa: SLF001
+                        runner.fail('other-consumer-mdib-affected', f'{where2}: it ends at MdibVersion {other.mdib_version} '
+                                                                    f'(answer: {cap.snap.vg[0]}), buffer {len(other._buffered_notifications)}')  # noqa: SLF001
+                    if len(runner.mdib._buffered_notifications) != n_before:  # noqa: SLF001
+                        runner.fail('buffer-changed-by-other-consumer-mdib', f'{where2}: afterwards '
+                                                                             f'{len(runner.mdib._buffered_notifications)} are buffered')  # noqa: SLF001
+                    runner.count('overlapping-loads')
+                finally:
+                    nested.pop()
             if thr is not None and variant == 'after-release':
                 lock.arm(thr, variant, in_release_window)
             elif thr is not None:
@@ -1955,6 +1987,8 @@ class Runner:
                 self.deliver(e[1])
             elif e[0] == 'race':
                 self.reload(e[1], e[2], e[3], race=(e[4], e[5]))
+            elif e[0] == 'reload+other':
+                self.reload(e[1], e[2], e[3], other_load=True)
             else:
                 self.reload(e[1], e[2], e[3])
         self.full_dump()
@@ -2318,7 +2352,8 @@ def scenario_buffer_race(world, rng):
     return rec.hist, [('race', 0, 0, [], w1[0], 'before-lock')] + [('deliver', i) for i in w1[1:] + w2 + w3] + \
         [('race', c1, c1, [], w4[0], 'in-lock')] + [('deliver', i) for i in w4[1:] + w5] + \
         [('race', c1, c1, w4, w5[0], 'before-lock')] + [('deliver', i) for i in w5[1:]] + \
-        [('race', c1, c1, [], w4[0], 'after-release')] + [('deliver', i) for i in w4[1:] + w5]
+        [('race', c1, c1, [], w4[0], 'after-release')] + [('deliver', i) for i in w4[1:] + w5] + \
+        [('reload+other', 0, 0, w1 + w2), ('deliver', w3[0]), ('reload+other', c1, c1, w4 + w5)]
 
 
 def scenario_commit_during_getmdib(world, rng):
